@@ -19,3 +19,8 @@ import Emitter.Props.C06
 #print axioms Emitter.C06.limit_bound
 #print axioms Emitter.C06.query_ordered
 #print axioms Emitter.C06.frame_limit
+#print axioms Emitter.Tie.Id.tie_Contract
+#print axioms Emitter.Tie.Id.tie_Time
+#print axioms Emitter.Tie.Id.tie_SetTime
+#print axioms Emitter.Tie.Id.tie_NewPrefix
+#print axioms Emitter.Tie.Id.tie_HasPrefix
